@@ -179,6 +179,21 @@ def check_case(case, ctx):
         ctx.count('build_failed:' + type(e).__name__)
         return
     if case.get('edited'):
+        # the object is queried, then edited through public calls, then queried again (below)
+        try:
+            for _ in range(3):
+                a0 = {}
+                for lbl in net.inputs:
+                    v = rng.choice((False, True, None, Undefined))
+                    if v is not None:
+                        a0[lbl] = v
+                c.evaluate_circuit(a0)
+                c.evaluate_full_circuit(a0)
+                c.evaluate_circuit_outputs(a0)
+            ctx.count('queried_before_edit')
+        except Exception as e:
+            ctx.unexpected('partial evaluators', e, case)
+            return
         with monitor.suspended():
             case = dict(case, edits_applied=netgen.random_edits(c, rng, allow_interface=False))
             CUR['case'] = case
